@@ -88,6 +88,11 @@ CLAIMED = {
             "For each enumerated constructor cell the traced output has exactly the requested types, order, channel counts, spatial shape, D and flags (exact for all "
             "inputs: JAX shapes are value-independent); in conventional mode z3 proves every component of every type is the CNN output channel off_t + c*D^k + i.",
             "Structural half involves no SMT query (stated in evidence); BatchNorm off; cells sampled (pairwise core + seeded).", "4/C20"),
+    "C09": (JX, "inductive step: jaxpr of the real ml.train_step, sliced by jax's dead-code elimination to the new filter-bank leaves and their optimiser moments, executed symbolically (filter bank symbolic); z3 (QF_NRA); dependency set of the slice read from the jaxpr",
+            "For each enumerated (model, optimiser, step count) z3 proves that one real train_step from an arbitrary state with zero filter moments maps every "
+            "invariant-filter leaf to a common rescaling of itself (identically for sgd/adam) with zero new moments, and the slice depends on no data / other "
+            "parameter (d loss/d filters == 0): an inductive invariant covering histories of any length; equivariance for all free-parameter values is C07.",
+            "Optimisers {sgd, momentum, adam, adamw} (+lion, rmsprop, adagrad thorough); ml.train's loop itself is an argument (iterates train_step, returns an iterate).", "4/C09"),
 }
 
 NOT_YET = {}
